@@ -250,7 +250,7 @@ def check(tier: str) -> int:
     if total == 0 or set(ops) != want_ops or errors == 0:
         raise core.MachineryError(f"vacuity: transitions={total} ops={sorted(ops)} error-outcomes={errors}")
     # walks
-    nwalk, cap = (4000, 30000) if tier == "quick" else (40000, 400000)
+    nwalk, cap = (4000, 30000) if tier == "quick" else (20000, 150000)
     res, path = tlc.emit_cases("MC_ContextColl", "ContextColl.walk", simulate=f"num={nwalk}", depth=9,
                                seed=core.seed() + 11, timeout=3000)
     run.add_tlc(res, count_states=False)
